@@ -684,7 +684,228 @@ theorem value_step {F : Nat} (ih : Specs F) {L : List Nat} {s : PState} (skip : 
       refine tot_seq (bumpUntil_spec .CLOSE_BRACE _ h7) fun _ s9 ⟨h9, hn9⟩ => ?_
       exact tot_pure ⟨h9.sub (by simp), by omega, fun _ => by omega⟩
     · exact tot_pure ⟨h7.sub (by simp), by omega, fun _ => by omega⟩
-  all_goals sorry
+  · -- word, function call
+    have hlt := lt_of_kAt (s := s) (i := skip) (by rw [← hk]; simp)
+    refine tot_seq (bumpN_spec skip h) fun _ s1 ⟨h1, hn1⟩ => ?_
+    refine tot_seq (checkpoint_spec_n h1) fun start s2 ⟨h2, hn2⟩ => ?_
+    refine tot_seq (checkpoint_spec_n h2) fun c s3 ⟨h3, hn3⟩ => ?_
+    refine tot_seq (bumpNode_spec .WORD h3) fun _ s4 ⟨h4, hn4⟩ => ?_
+    refine tot_nth_bind fun k2 hk2 => ?_
+    split
+    · rename_i hparen
+      have hlt4 := lt_of_kAt (s := s4) (i := 0 + 0) (by
+        rw [← hk2]; intro hh; rw [hh] at hparen; simp at hparen)
+      refine tot_seq (closeAt_spec_n .FN_NAME h4) fun _ s5 ⟨h5, hn5⟩ => ?_
+      refine tot_seq (bump_spec h5) fun _ s6 ⟨h6, hn6⟩ => ?_
+      refine tot_seq (ih.callArguments h6 (by omega)) fun b s7 ⟨h7, hn7⟩ => ?_
+      split
+      · exact tot_pure ⟨h7.sub (by simp), by omega, fun _ => by omega⟩
+      · refine tot_seq (closeAt_spec_n .FN_CALL h7) fun _ s8 ⟨h8, hn8⟩ => ?_
+        exact tot_pure ⟨h8.sub (by simp), by omega, fun _ => by omega⟩
+    · refine tot_countSkip_bind fun skip1 => ?_
+      refine tot_seq (wordLoop_spec true F skip1 0 h4 (by omega)) fun ws s5 ⟨h5, hn5⟩ => ?_
+      obtain ⟨words, skip2⟩ := ws
+      dsimp only
+      refine tot_if_then (P := fun s' => Chain s'.b (L ++ [start] ++ [c]) ∧ n s' = n s5)
+        (fun _ => closeAt_spec_n .SENTENCE h5) (fun _ => ⟨h5, rfl⟩) fun s6 ⟨h6, hn6⟩ => ?_
+      exact tot_pure ⟨h6.sub (by simp), by omega, fun _ => by omega⟩
+  · -- number
+    have hlt := lt_of_kAt (s := s) (i := skip) (by rw [← hk]; simp)
+    refine tot_seq (bumpN_spec skip h) fun _ s1 ⟨h1, hn1⟩ => ?_
+    refine tot_seq (checkpoint_spec_n h1) fun c s2 ⟨h2, hn2⟩ => ?_
+    refine tot_seq (bump_spec h2) fun _ s3 ⟨h3, hn3⟩ => ?_
+    refine tot_countSkip_bind fun skip1 => ?_
+    refine tot_seq (P := fun _ s' => Chain s'.b (L ++ [c]) ∧ n s' ≤ n s3) ?_
+      fun kind s4 ⟨h4, hn4⟩ => ?_
+    · refine tot_nth_bind fun k2 hk2 => ?_
+      split
+      · refine tot_seq (bumpN_spec skip1 h3) fun _ s4 ⟨h4, hn4⟩ => ?_
+        refine tot_seq (bump_spec h4) fun _ s5 ⟨h5, hn5⟩ => ?_
+        exact tot_pure ⟨h5, by omega⟩
+      · refine tot_seq (unit_spec F skip1 h3 (by omega)) fun r s4 ⟨h4, hn4⟩ => ?_
+        split
+        · exact tot_pure ⟨h4.sub (by simp), hn4⟩
+        · exact tot_pure ⟨h4.sub (by simp), hn4⟩
+    · refine tot_seq (closeAt_spec_n kind h4) fun _ s5 ⟨h5, hn5⟩ => ?_
+      exact tot_pure ⟨h5, by omega, fun _ => by omega⟩
+  · -- parenthesis
+    have hlt := lt_of_kAt (s := s) (i := skip) (by rw [← hk]; simp)
+    refine tot_seq (bumpN_spec skip h) fun _ s1 ⟨h1, hn1⟩ => ?_
+    refine tot_seq (checkpoint_spec_n h1) fun c s2 ⟨h2, hn2⟩ => ?_
+    refine tot_seq (bump_spec h2) fun _ s3 ⟨h3, hn3⟩ => ?_
+    refine tot_countSkip_bind fun skip1 => ?_
+    refine tot_seq (ih.operation skip1 h3 (by omega)) fun r s4 ⟨h4, hn4, _⟩ => ?_
+    split
+    · exact tot_pure ⟨h4.sub (by simp), by omega, fun _ => by omega⟩
+    · rename_i skip2
+      refine tot_seq (eat_spec skip2 [.CLOSE_PAREN] h4) fun b s5 ⟨h5, hn5, _⟩ => ?_
+      split
+      · exact tot_pure ⟨h5.sub (by simp), by omega, fun _ => by omega⟩
+      · refine tot_seq (closeAt_spec_n .OPERATION h5) fun _ s6 ⟨h6, hn6⟩ => ?_
+        exact tot_pure ⟨h6, by omega, fun _ => by omega⟩
+  · -- anything else
+    rename_i h1 h2 h3 h4
+    refine tot_pure ⟨by simpa using h, Nat.le_refl _, ?_⟩
+    intro hs
+    rw [← hk] at hs
+    rcases hs with hs | hs | hs | hs
+    · exact absurd hs h1
+    · exact absurd hs h4
+    · exact absurd hs h2
+    · exact absurd hs h3
+
+theorem argsLoop_step {F : Nat} (ih : Specs F) {L : List Nat} {s : PState}
+    (h : Chain s.b L) (hf : 4 * n s + 4 ≤ F + 1) :
+    Tot (argsLoop (F + 1)) s (fun _ s' => Chain s'.b L ∧ n s' ≤ n s) := by
+  unfold argsLoop
+  refine tot_countSkip_bind fun skip => ?_
+  refine tot_nth_bind fun k hk => ?_
+  split
+  · exact tot_pure ⟨h, Nat.le_refl _⟩
+  · refine tot_seq (ih.operation skip h (by omega)) fun r s1 ⟨h1, hn1, _⟩ => ?_
+    split
+    · exact tot_pure ⟨h1, hn1⟩
+    · rename_i skip1
+      refine tot_seq (eat_spec skip1 [.COMMA] h1) fun b s2 ⟨h2, hn2, hp2⟩ => ?_
+      split
+      · exact tot_pure ⟨h2, by omega⟩
+      · rename_i hb
+        have hb' : b = true := by simpa using hb
+        have := hp2 hb' (by simp)
+        refine tot_mono (ih.argsLoop h2 (by omega)) fun _ s3 ⟨h3, hn3⟩ => ⟨h3, by omega⟩
+
+theorem callArguments_step {F : Nat} (ih : Specs F) {L : List Nat} {s : PState}
+    (h : Chain s.b L) (hf : 4 * n s + 5 ≤ F + 1) :
+    Tot (callArguments (F + 1)) s (fun _ s' => Chain s'.b L ∧ n s' ≤ n s) := by
+  unfold callArguments
+  refine tot_seq (checkpoint_spec_n h) fun c s1 ⟨h1, hn1⟩ => ?_
+  refine tot_seq (ih.argsLoop h1 (by omega)) fun r s2 ⟨h2, hn2⟩ => ?_
+  split
+  · exact tot_pure ⟨h2.sub (by simp), by omega⟩
+  · rename_i skip
+    refine tot_seq (closeAt_spec_n .FN_ARGUMENTS h2) fun _ s3 ⟨h3, hn3⟩ => ?_
+    refine tot_mono (eat_spec skip [.CLOSE_PAREN] h3) fun _ s4 ⟨h4, hn4, _⟩ =>
+      ⟨h4.sub (by simp), by omega⟩
+
+theorem opInfo_EOF : opInfo .EOF = none := rfl
+
+theorem opLoop_step {F : Nat} (ih : Specs F) {L : List Nat} {s : PState} (opn : Nat)
+    (st : List (Nat × Nat × Bool)) (first : Bool) (skip : Nat)
+    (h : Chain s.b (L ++ sc st ++ (if first then [opn] else []))) (hf : 4 * n s + 2 ≤ F + 1) :
+    Tot (opLoop (F + 1) opn st first skip) s (fun _ s' => Chain s'.b L ∧ n s' ≤ n s ∧
+      (isUnitTop st = false → startKind (kAt s skip) → n s' < n s)) := by
+  unfold opLoop
+  dsimp only
+  refine tot_seq (P := fun r s' =>
+    Chain s'.b (L ++ sc st ++ (if first then [opn] else []) ++ r.toList) ∧ n s' ≤ n s ∧
+      (isUnitTop st = false → startKind (kAt s skip) → n s' < n s)) ?_
+    fun cur? s1 ⟨h1, hn1, hp1⟩ => ?_
+  · show Tot (if isUnitTop st = true then _ else _) s _
+    cases hu : isUnitTop st with
+    | true =>
+      simp only [↓reduceIte]
+      refine tot_seq (bumpN_spec skip h) fun _ s1 ⟨h1, hn1⟩ => ?_
+      refine tot_mono (unit_spec F 0 h1 (by omega)) fun r s2 ⟨h2, hn2⟩ =>
+        ⟨h2, by omega, fun hh => by cases hh⟩
+    | false =>
+      simp only [Bool.false_eq_true, ↓reduceIte]
+      refine tot_mono (ih.value skip h (by omega)) fun r s2 ⟨h2, hn2, hp2⟩ =>
+        ⟨h2, hn2, fun _ => hp2⟩
+  · split
+    · exact tot_pure ⟨h1.sub (by simp), hn1, hp1⟩
+    · rename_i cur _
+      refine tot_countSkip_bind fun curSkip => ?_
+      refine tot_nth_bind fun k2 hk2 => ?_
+      split
+      · refine tot_seq (closeAll_spec (L := L) st (h1.sub (by simp))) fun _ s2 ⟨h2, hn2⟩ => ?_
+        exact tot_pure ⟨h2, by omega, fun a b => by have := hp1 a b; omega⟩
+      · rename_i prio operator extra hop
+        have hlt := lt_of_kAt (s := s1) (i := curSkip + 0) (by
+          rw [← hk2]; intro hh; rw [hh, opInfo_EOF] at hop; cases hop)
+        have hsc : L ++ sc (if first = true then (opn, prio, extra) :: st else st) =
+            L ++ sc st ++ (if first then [opn] else []) := by
+          cases first <;> simp [sc_cons]
+        refine tot_seq (reduce_spec (L := L) cur prio extra _ (s := s1) ?_ ?_)
+          fun st2 s2 ⟨h2, hn2⟩ => ?_
+        · rw [hsc]; exact h1.sub (by simp)
+        · intro _ _ _ _ _ _
+          rw [hsc]; exact h1
+        refine tot_seq (bumpN_spec curSkip h2) fun _ s3 ⟨h3, hn3⟩ => ?_
+        refine tot_seq (bumpNode_spec operator h3) fun _ s4 ⟨h4, hn4⟩ => ?_
+        refine tot_countSkip_bind fun skip' => ?_
+        refine tot_mono (ih.opLoop (L := L) opn st2 false skip' (by simpa using h4) (by omega))
+          fun _ s5 ⟨h5, hn5, _⟩ => ⟨h5, by omega, fun _ _ => by omega⟩
+
+theorem operation_step {F : Nat} (ih : Specs F) {L : List Nat} {s : PState} (skip : Nat)
+    (h : Chain s.b L) (hf : 4 * n s + 3 ≤ F + 1) :
+    Tot (operation (F + 1) skip) s (fun _ s' => Chain s'.b L ∧ n s' ≤ n s ∧
+      (startKind (kAt s skip) → n s' < n s)) := by
+  unfold operation
+  refine tot_seq (checkpoint_spec h) fun opn s1 ⟨h1, ht1⟩ => ?_
+  have hn1 : n s1 = n s := by simp only [n, ht1]
+  have hk1 : kAt s1 skip = kAt s skip := by simp only [kAt, ht1]
+  refine tot_mono (ih.opLoop (L := L) opn [] true skip (by simpa [sc] using h1) (by omega))
+    fun _ s2 ⟨h2, hn2, hp2⟩ => ⟨h2, by omega, fun hs => ?_⟩
+  have := hp2 rfl (hk1 ▸ hs)
+  omega
+
+theorem specs : ∀ F, Specs F := by
+  intro F
+  induction F with
+  | zero =>
+    refine ⟨?_, ?_, ?_, ?_, ?_⟩ <;> intros <;> omega
+  | succ F ih =>
+    exact ⟨value_step ih, argsLoop_step ih, callArguments_step ih, opLoop_step ih,
+      operation_step ih⟩
+
+/-! ### The root rule -/
+
+theorem rootLoop_spec (F : Nat) : ∀ {s : PState} (c : Nat) (e : Bool) (skip : Nat),
+    Chain s.b [c] → 4 * n s + 4 ≤ F →
+    Tot (rootLoop F c e skip) s (fun _ s' => Chain s'.b [c]) := by
+  induction F with
+  | zero => intro s c e skip h hf; omega
+  | succ F ih =>
+    intro s c e skip h hf
+    unfold rootLoop
+    refine tot_nth_bind fun k hk => ?_
+    rw [Nat.add_zero] at hk
+    split
+    · refine tot_seq (bumpN_spec skip h) fun _ s1 ⟨h1, _⟩ => ?_
+      exact tot_pure h1
+    · rename_i hne
+      have hlt := lt_of_kAt (s := s) (i := skip) (by
+        rw [← hk]; intro hh; rw [hh] at hne; simp at hne)
+      split
+      · rename_i hstart
+        have hsk : startKind (kAt s skip) := by
+          rw [← hk]; simpa [startKind, or_assoc] using hstart
+        refine tot_seq ((specs F).operation skip h (by omega)) fun r s1 ⟨h1, hn1, hp1⟩ => ?_
+        have := hp1 hsk
+        split
+        · exact ih c e _ h1 (by omega)
+        · refine tot_seq (closeAt_spec_n (L := []) .ERROR h1) fun _ s2 ⟨h2, hn2⟩ => ?_
+          exact ih c e _ h2 (by omega)
+      · refine tot_seq (bumpN_spec skip h) fun _ s1 ⟨h1, hn1⟩ => ?_
+        refine tot_seq (bump_spec h1) fun _ s2 ⟨h2, hn2⟩ => ?_
+        refine tot_countSkip_bind fun skip' => ?_
+        exact ih c true _ h2 (by omega)
+
+theorem root_spec (F : Nat) {s : PState} (h : Chain s.b []) (hf : 4 * n s + 4 ≤ F) :
+    Tot (root F) s (fun _ _ => True) := by
+  unfold root
+  refine tot_countSkip_bind fun skip => ?_
+  refine tot_seq (checkpoint_spec_n h) fun c s1 ⟨h1, hn1⟩ => ?_
+  refine tot_seq (rootLoop_spec F c false skip h1 (by omega)) fun e s2 h2 => ?_
+  split
+  · exact tot_mono (closeAt_spec_n (L := []) .ERROR h2) fun _ _ _ => trivial
+  · exact tot_pure trivial
+
+/-- The root parser succeeds on every token list. -/
+theorem parseRootToks_ok (toks : List Token) : ∃ forest, parseRootToks toks = .ok forest := by
+  obtain ⟨_, s', hr, _⟩ := root_spec (fuelFor toks) (s := { toks := toks }) chain_init
+    (by simp only [n, fuelFor]; omega)
+  exact ⟨s'.b.forest, by simp only [parseRootToks, hr]⟩
 
 end PTotal
 end Anything
